@@ -5,9 +5,9 @@ package main
 
 import (
 	"fmt"
-	"sort"
 	"go/token"
 	"go/types"
+	"sort"
 	"strings"
 
 	"golang.org/x/tools/go/ssa"
@@ -46,25 +46,25 @@ var intrinsicMods = map[string][][2]string{}
 
 func init() {
 	intrinsics = map[string]intrinsic{
-		"fmt.Errorf":       intrNewError,
-		"errors.New":       intrNewError,
-		"fmt.Sprintf":      intrFreshString,
-		"fmt.Sprint":       intrFreshString,
-		"fmt.Sprintln":     intrFreshString,
-		"strconv.Itoa":     intrFreshString,
-		"bytes.Equal":      intrBytesEqual,
-		"bytes.Compare":    intrBytesCompare,
-		"strings.ToLower":  intrStrFunc("strings.ToLower"),
-		"strings.ToUpper":  intrStrFunc("strings.ToUpper"),
-		"strings.TrimSpace": intrStrFunc("strings.TrimSpace"),
+		"fmt.Errorf":              intrNewError,
+		"errors.New":              intrNewError,
+		"fmt.Sprintf":             intrFreshString,
+		"fmt.Sprint":              intrFreshString,
+		"fmt.Sprintln":            intrFreshString,
+		"strconv.Itoa":            intrFreshString,
+		"bytes.Equal":             intrBytesEqual,
+		"bytes.Compare":           intrBytesCompare,
+		"strings.ToLower":         intrStrFunc("strings.ToLower"),
+		"strings.ToUpper":         intrStrFunc("strings.ToUpper"),
+		"strings.TrimSpace":       intrStrFunc("strings.TrimSpace"),
 		"hash/crc32.ChecksumIEEE": intrCRC,
-		"time.Now":         intrHavocResult,
-		"encoding/binary.Read": intrBinaryRead,
-		"sort.Search":          intrSortSearch,
+		"time.Now":                intrHavocResult,
+		"encoding/binary.Read":    intrBinaryRead,
+		"sort.Search":             intrSortSearch,
 		"github.com/dgraph-io/badger/v3.DB.Update": intrBadgerTxn,
 		"github.com/dgraph-io/badger/v3.DB.View":   intrBadgerTxn,
-		"time.Since":       intrHavocResult,
-		"runtime.GOMAXPROCS": intrHavocResult,
+		"time.Since":                               intrHavocResult,
+		"runtime.GOMAXPROCS":                       intrHavocResult,
 	}
 }
 
@@ -197,6 +197,7 @@ func (vc *VC) call(fr *Frame, st *State, c *ssa.CallCommon, ins ssa.Instruction,
 		vc.lockCall(fr, st, c, key, pos)
 		return Val{K: KTuple, T: types.NewTuple()}
 	}
+	vc.lockProtocolCheck(fr, st, c, callee, key, pos)
 	if vc.eng.isNoEffect(key) {
 		return vc.havocResults(st, c.Signature())
 	}
@@ -666,9 +667,10 @@ func singleUse(v ssa.Value) bool {
 
 // binary.Read(r, order, &x) for a *bytes.Buffer reader and a pointer to a fixed-size integer:
 // trusted model of the library's fast path (io.ReadFull over Buffer.Read).
-//   avail == 0      -> err != nil (io.EOF), nothing consumed, x unchanged
-//   0 < avail < n   -> err != nil (io.ErrUnexpectedEOF), buffer drained, x unchanged
-//   avail >= n      -> x = decode(buf[off:off+n]), off += n, err == nil
+//
+//	avail == 0      -> err != nil (io.EOF), nothing consumed, x unchanged
+//	0 < avail < n   -> err != nil (io.ErrUnexpectedEOF), buffer drained, x unchanged
+//	avail >= n      -> x = decode(buf[off:off+n]), off += n, err == nil
 func intrBinaryRead(vc *VC, fr *Frame, st *State, args []Val, c *ssa.CallCommon, pos token.Position) Val {
 	errT := c.Signature().Results().At(0).Type()
 	fallback := func(why string) Val {
